@@ -25,6 +25,7 @@ package cache
 //@ field MemoryCache.memoryCap guarded_by mu
 //@ field map_map_cache.CacheKey guarded_by mu+shard
 //@ field cacheJanitor.interval guarded_by confined:newCacheJanitor,cacheJanitor.start,cacheJanitor.start$1
+//@ field cacheJanitor.running guarded_by confined:newCacheJanitor,cacheJanitor.start,cacheJanitor.stop
 
 // ---------------------------------------------------------------- cache keys (C02)
 
@@ -60,7 +61,7 @@ package cache
 
 // ---------------------------------------------------------------- helpers
 
-//@ props C14 C16
+//@ props C14 C16 C18
 //@ func getLock
 //@   nopanic
 //@   pure
@@ -367,6 +368,20 @@ package cache
 
 // ---------------------------------------------------------------- constructors and the closures they install
 
+// The limit listeners follow the value they are told (not whatever the configuration reads as
+// at that moment: a staged value is announced before it is committed).
+//@ props C19 C16
+//@ func NewFileCache$1
+//@   nopanic
+//@   requires c != nil && c.maxCacheSize.val != nil
+//@   ensures [C19] c.maxCacheSize.val.v == newSize
+
+//@ props C19 C16
+//@ func NewMemoryCache$1
+//@   nopanic
+//@   requires c != nil && c.maxCacheSize.val != nil
+//@   ensures [C19] c.maxCacheSize.val.v == newSize
+
 // A new file cache starts from a cleared directory with an empty record and a zero
 // counter: the representation invariant holds before the first request.
 //@ props C12 C16
@@ -410,6 +425,10 @@ package cache
 //@   nopanic
 //@   requires c.byteSize.val != nil
 //@   ensures result == c.byteSize.val.v
+
+//@ props C15 C14 C16
+//@ func cacheJanitor.start
+//@   nopanic
 
 // stop never blocks: it takes no lock and performs no channel send or receive.
 //@ props C14 C16
